@@ -77,6 +77,18 @@ def apply_variant(sc, var):
                 f["closure"] = list(cl.values())
             else:
                 f[k] = v
+    # closure-converted steps: a variant may re-point a step at another closure (e.g. two closures merged into one) or re-type it
+    cfs = {c.get("id", c.get("name")): c for c in sc.get("closure_fn", [])}
+    for ov in var.get("closure_fn", []):
+        c = cfs.get(ov["id"])
+        if c is None:
+            sc.setdefault("closure_fn", []).append(dict(ov))
+            continue
+        for d in ov.get("drop", []):
+            c.pop(d, None)
+        for k, v in ov.items():
+            if k not in ("id", "drop"):
+                c[k] = v
     return sc
 
 
